@@ -168,7 +168,7 @@ func staticCallsTo(fns []*ssa.Function, target *ssa.Function) []ssa.CallInstruct
 // boundMethod: v is a method value x.M (MakeClosure of a $bound wrapper);
 // returns the receiver value and the method object.
 func boundMethod(v ssa.Value) (recv ssa.Value, method *types.Func, ok bool) {
-	mc, isMC := strip(v).(*ssa.MakeClosure)
+	mc, isMC := resultOf(v).(*ssa.MakeClosure)
 	if !isMC {
 		return nil, nil, false
 	}
@@ -280,6 +280,44 @@ func structFieldValue(v ssa.Value, f *types.Var, depth int) ssa.Value {
 			}
 		}
 	case *ssa.Parameter:
+		return nil
+	case *ssa.Call:
+		// a constructor helper: an own function with a single return of a struct built from its
+		// parameters — the field's value is the corresponding argument of this call
+		g := x.Call.StaticCallee()
+		if g == nil || g.Blocks == nil || !ownPkgPath(pkgPathOf(g)) {
+			return nil
+		}
+		var ret *ssa.Return
+		for _, in := range instrsOf(g) {
+			if r, ok := in.(*ssa.Return); ok {
+				if ret != nil {
+					return nil
+				}
+				ret = r
+			}
+		}
+		if ret == nil || len(ret.Results) != 1 {
+			return nil
+		}
+		noParamLook++
+		inner := structFieldValue(retResult(ret, 0), f, depth+1)
+		noParamLook--
+		if inner == nil {
+			return nil
+		}
+		noParamLook++
+		si := strip(inner)
+		noParamLook--
+		if p, ok := si.(*ssa.Parameter); ok && p.Parent() == g {
+			if idx := paramIndex(p); idx >= 0 && idx < len(x.Call.Args) {
+				return x.Call.Args[idx]
+			}
+			return nil
+		}
+		if _, ok := si.(*ssa.Const); ok {
+			return inner
+		}
 		return nil
 	}
 	if alloc == nil {
